@@ -116,7 +116,7 @@ def new_tokenizer(stream: list, path: str = "", **flags):
 @functools.lru_cache(None)
 def _module_consts() -> dict:
     from .c17 import module_pure_constants
-    out = dict(module_pure_constants(repo.TOKENIZER))
+    out = dict(module_pure_constants(repo.TOKENIZER, extra={"Token": _TokenEnum()}, data_attrs=KINDS))
     # frozenset / set displays of Token members and the like are built by the functions themselves
     return out
 
